@@ -62,6 +62,72 @@ def publish(root, versions, index_mode="ok"):
     return "file://" + os.path.join(root, "Packages")
 
 
+# ------------------------------------------------------------------------------------------------
+# P-19a  replace_file against a ghost file system: every failure point is an explicit path
+import z3
+from vf.pyvc.speclib import SpecLib
+from vf.pyvc.world import World, Contract
+from vf.pyvc.interp import LoopSpec
+from vf.pyvc.values import VBox, VSeq, VFunc, DictVal, empty_dict, fresh, fresh_name, lift, sort_of
+from vf.pyvc.driver import verify_contracts
+
+
+def join_upto(ls, k):
+    """concatenation of the first k strings of ls"""
+    if k <= 0:
+        return ""
+    return join_upto(ls, k - 1) + ls[k - 1]
+
+
+class ReplaceFile(Contract):
+    target = MOD + ":replace_file"
+    modular = False
+    requires = ()
+    ensures = ("fs == fs_del(fs_store(old(fs), local, join_upto(lines, len(lines))), local + '.new')",)
+    raises = {"OSError": ("fs == fs_del(old(fs), local + '.new') or (local + '.new' not in old(fs) and fs == old(fs))",)}
+    modifies = ("fs",)
+    raises_modifies = {"OSError": ("fs",)}
+    loops = {0: LoopSpec(
+        invariants=("fs == fs_store(old(fs), local + '.new', join_upto(lines, li))",
+                    "0 <= li and li <= len(lines)", "mention(join_upto(lines, li + 1))"),
+        index="li", modifies=("fs",), var_types={"l": "str"})}
+    locals_order = ["lines", "local", "encoding", "local_new", "new_file", "l"]
+
+    def setup(self, ex):
+        d = empty_dict("str", "str")
+        fs = VBox("dict", DictVal("str", "str", z3.Const(fresh_name("fs_keys"), d.keys.sort()),
+                                  z3.Const(fresh_name("fs_vals"), d.vals.sort())), "fs")
+        ex.fs = fs
+        lines = fresh(("list", "str"), "lines")
+        local = fresh("str", "local")
+        return {"lines": lines.val, "local": local, "encoding": lift("UTF-8"), "fs": fs}
+
+
+def run_deductive(ctx):
+    sl = SpecLib()
+    w = World(sl)
+    w.spec_func(join_upto, rec=dict(args=[("list", "str"), "int"], ret="str"))
+
+    def fs_store(ex, a, kw):
+        d, k, v = a
+        box = VBox("dict", d.val, "tmp")
+        sl.dict_set(ex, box, k, v)
+        return box
+
+    def fs_del(ex, a, kw):
+        d, k = a
+        dv = d.val
+        kk = k.t
+        junk = empty_dict(dv.kty, dv.vty).vals
+        return VBox("dict", DictVal(dv.kty, dv.vty, z3.Store(dv.keys, kk, z3.BoolVal(False)),
+                                    z3.Store(dv.vals, kk, z3.Select(junk, kk))), "tmp")
+    w.spec_env["fs_store"] = VFunc("builtin", "fs_store", fn=fs_store)
+    w.spec_env["fs_del"] = VFunc("builtin", "fs_del", fn=fs_del)
+    c = ReplaceFile()
+    verify_contracts(ctx, w, [c], {})
+    ctx.solve()
+
+
 def gen_versions(rng):
     pool = ["Package: a\n", "Version: 1\n", "\n", "Package: b\n", "Depends: a, b\n", "Description: é\n", " more\n", ".\n", " .\n", "x\n"]
     v = [rng.choice(pool) for _ in range(rng.randint(0, 6))]
@@ -102,6 +168,7 @@ def run(ctx):
         node, _ = mod.lookup(q)
         if node is not None:
             ctx.function_under_contract(MOD + ":" + q, mod.segment(node))
+    run_deductive(ctx)
     rng = random.Random(ctx.seed)
     rounds = 120 if ctx.tier == "quick" else 1500
     t = Tally(ctx, "B-19 real file:// mirrors: convergence, hash failures, unusable indexes, injected write / rename faults",
@@ -244,8 +311,15 @@ def run(ctx):
         shutil.rmtree(base, ignore_errors=True)
     t.done()
     ctx.level = "other"
-    ctx.explanation = "BOUNDED ONLY in this revision (see module docstring)."
-    ctx.assumptions += ["SHA1 indexes only (the interpreter has no _sha256 module: the library's SHA256 path raises NotImplementedError here)",
+    ctx.explanation = (
+        "PROVED (pyvc, ghost file system path -> content with a may-raise outcome for open, every write, close and rename): "
+        "replace_file on normal exit leaves exactly the joined lines in `local` and no '.new' file, nothing else changed; on "
+        "EVERY OSError exit (open fails, the i-th write fails for any i - one loop invariant -, close fails, rename fails) the "
+        "file system equals the old one minus a possibly stale '.new' file, i.e. `local` is untouched and no temporary file "
+        "remains. NOT proved: update_file / download_file / download_gunzip_lines (hash checks, index parsing, network) - "
+        "covered by the BOUNDED part on real file:// mirrors with injected faults.")
+    ctx.assumptions += ["os.unlink / os.path.exists in the finally block do not themselves fail; open(path,'w+') fails before creating or not at all",
+                        "SHA1 indexes only (the interpreter has no _sha256 module: the library's SHA256 path raises NotImplementedError here)",
                         "the mirror is consistent: Current is the hash of the published file, patch k turns v_k into v_k+1",
                         "content lines equal to a lone '.' cannot be transported by ed scripts and are not generated"]
 
